@@ -4,7 +4,8 @@
      C <toymode> <devblk> <tree 0|1> <hex file> <N> <nodes>   -> extracted valid_image + read_image_tree (toy
          decompressor) on bytes the C code produced, compared with spec_tree of the dumped tree:
          OK <nodes> | INVALID <clause> | NOREAD | MISMATCH <where>
-     R <path> <devblk> <tree 0|1>                             -> the extracted reader / validator on a real image file
+     R <path> <devblk> <tree 0|1> [novalid]                   -> the extracted reader / validator on a real image file
+         (novalid: valid_image is left to the valid_image_full driver, props/C03/valid_driver.ml; the line reads V SKIPPED)
          (decompressor oracle = system zlib / liblzma / liblz4 / libzstd through image_stubs.c), several lines:
          S <19 super fields> | S NONE
          I <ids>   F <start:size:pad,..>   X <-|refs>   V <0|1> <first failing clause>   T <n> | T NOREAD
@@ -214,6 +215,7 @@ let cmd_r () =
   let path = next () in
   let devblk = nextn () in
   let want_tree = next () <> "0" in
+  let want_valid = not (!pos < Array.length !toks && !toks.(!pos) = "novalid") in
   Hashtbl.reset memo;
   let img = list_of_string (read_file path) in
   (match read_super img with
@@ -232,8 +234,10 @@ let cmd_r () =
       | Some None -> print_string "X -\n"
       | Some (Some l) -> Printf.printf "X %s\n" (nlist_s l)
       | None -> print_string "X NOREAD\n");
-     let v = valid_image un devblk img in
-     Printf.printf "V %s %s\n" (b01 v) (if v then "0" else string_of_n (first_failure un devblk img));
+     if want_valid then begin
+       let v = valid_image un devblk img in
+       Printf.printf "V %s %s\n" (b01 v) (if v then "0" else string_of_n (first_failure un devblk img))
+     end else print_string "V SKIPPED\n";
      if want_tree then
        (match read_image_tree un img with
         | Some t -> Printf.printf "T %d\n" (count_lt t); print_tree "" t
